@@ -58,8 +58,10 @@ claim('C05', 'Lean 4 proofs (zone cursor invariant, confinement, zone-relative v
       'Kernel-checked theorems: every zone keeps start <= cursor <= end+1 and lies inside GLOBAL; every byte line lies inside its '
       'zone and inside GLOBAL, a line that would not is rejected; a zone-relative .org is offset from the zone start, a bare one is '
       'absolute; separate stretches of one zone are laid out consecutively whatever other zones do in between; a source-declared zone '
-      'is accepted iff its name is new and it is non-inverted, inside the address width and inside GLOBAL. Each run compares '
-      'accept/reject and image of the real CLI with the model on zone-heavy programs.',
+      'is accepted iff its name is new and it is non-inverted, inside the address width and inside GLOBAL; at the text level a '
+      'statement written behind a zone / origin directive on the same source line is the next statement of the list these theorems '
+      'speak about (text_zone_directive_line, text_origin_label_line). Each run compares accept/reject and image of the real CLI '
+      'with the model on zone-heavy programs, whose source text is also parsed by the Lean front end (structured route = text route).',
       NOTE + ' Two predefined zones with the same name: the later one wins (mirrored; outside the property statement).')
 
 claim('C08', 'Lean 4 refinement proof (condition-stack machine = block-tree semantics) + differential correspondence',
@@ -137,7 +139,9 @@ claim('C18', 'Lean 4 proofs about the model scanner (whitespace / comment / blan
       'PARTIAL. Kernel-checked theorems about the hand-written model scanner: tokens are recovered whatever the amount and kind of '
       'whitespace between them; comments, blank lines and indentation contribute nothing; mnemonics and registers are case-folded, other '
       'identifiers kept; a quoted literal is one token whatever it contains (; , : blanks, mnemonics); a label splits off as its own statement; a line is split where the next mnemonic starts; the program is the '
-      'concatenation of its lines. The real code uses Python regular expressions for this: they are modelled, not verified. The tie is '
+      'concatenation of its lines; the parser that feeds the layout model drops comments outside literals only, ignores surrounding '
+      'blanks, and reads `name: rest` as the label followed by the statements of `rest` (text_* theorems). The real code uses Python '
+      'regular expressions for this: they are modelled, not verified. The tie is '
       'checked on every run: each generated program is rendered in one canonical and three random layouts (all listed rewrites at '
       'random positions) and all must give the same image on the real CLI (the property itself), and the text re-rendered from the '
       'model scanner\'s statement list must give that image too.',
